@@ -41,12 +41,14 @@ func c18Def() nhCheckDef {
 	return nhCheckDef{Scenarios: scs, Oracle: c18Oracle}
 }
 
-func c18Alphabet(peers []string) []nhEvent {
+func c18Alphabet(peers []string, gc string) []nhEvent {
 	ev := []nhEvent{{Op: "submit", B: 0}, {Op: "receive", B: 1, P: "r1", Q: "r1"}, {Op: "retry"}, {Op: "up", P: "dest"}, {Op: "fail", P: "dest"}}
 	for _, p := range peers {
 		ev = append(ev, nhEvent{Op: "up", P: p}, nhEvent{Op: "fail", P: p}, nhEvent{Op: "ok", P: p})
 	}
 	ev = append(ev, nhEvent{Op: "down", P: peers[0]})
+	// the algorithm's garbage-collection job: it may forget bundles that left the store, nothing else
+	ev = append(ev, nhEvent{Op: "cron", N: gc})
 	return ev
 }
 
@@ -130,16 +132,20 @@ func runC18(r *ev.Run, thorough bool) int {
 		depth, budget = 5, 100000
 	}
 	var plans []nhPlan
+	gcJob := []string{"spray_and_wait_gc", "binary_spray_gc"}
 	for ai := 0; ai < 2; ai++ {
 		for _, l := range ls {
 			si := ai*c18MaxL + (l - 1)
-			plans = append(plans, nhPlan{Scenario: si, Alphabet: c18Alphabet(peers), Depth: depth, Budget: budget})
-			plans = append(plans, nhPlan{Scenario: si, Root: []nhEvent{{Op: "up", P: "r1"}, {Op: "fail", P: "r1"}, {Op: "up", P: "r2"}}, Alphabet: c18Alphabet(peers), Depth: depth, Budget: budget})
+			plans = append(plans, nhPlan{Scenario: si, Alphabet: c18Alphabet(peers, gcJob[ai]), Depth: depth, Budget: budget})
+			if !thorough && l%2 == 1 && l > 1 {
+				continue // quick: the non-initial root for L = 1, 2, 4
+			}
+			plans = append(plans, nhPlan{Scenario: si, Root: []nhEvent{{Op: "up", P: "r1"}, {Op: "fail", P: "r1"}, {Op: "up", P: "r2"}}, Alphabet: c18Alphabet(peers, gcJob[ai]), Depth: depth, Budget: budget})
 		}
 	}
 	for k := 0; k < 2; k++ {
 		mp := []string{"sensor1", "sensor2", "r1"}
-		plans = append(plans, nhPlan{Scenario: 2*c18MaxL + k, Alphabet: c18Alphabet(mp), Depth: depth, Budget: budget})
+		plans = append(plans, nhPlan{Scenario: 2*c18MaxL + k, Alphabet: c18Alphabet(mp, gcJob[k]), Depth: depth, Budget: budget})
 	}
 	return nhRunPlans(r, "C18", "c18", plans,
 		fmt.Sprintf("spray-and-wait and binary spray with budgets L in %v, relays %v plus the destination: BFS over submission, reception (binary: carrying L copies), peers up/down, send outcome switches and retry ticks from the initial state and from a root with a failing and a working relay; in every state: successful transmissions to non-destination peers <= L-1, copies kept + copies given away (spray: successes; binary: sum of announced copies parsed from the transmitted bundles) = copies held, a single-copy holder sends only to the destination", ls, peers),
